@@ -86,3 +86,28 @@ Proof.
   split; [repeat constructor; discriminate|]. split; [exact ex_sinv|].
   vm_compute. repeat split; try reflexivity. discriminate.
 Qed.
+
+(* the history xprep (assert, assert, start over X0, start over X1) satisfies the condition of
+   SlotsReach.disjoint_queries_alone: the second query is started over a variable that does not occur in the first *)
+From YP Require Import Engine.SlotsReach.
+
+Lemma ex_hist_ok : hist_ok 1 0 50 xprep init_engine [].
+Proof.
+  unfold xprep. cbn [hist_ok op_ok]. repeat (split; [exact I|]).
+  split; [|split; [|exact I]].
+  - intros q' c' N H. vm_compute in H. discriminate.
+  - intros q' c' N H v Hv. vm_compute in H.
+    destruct q' as [|q']; [|destruct q'; discriminate]. inversion H; subst c'. clear H.
+    unfold argvar. cbn [cargs]. cbn [map rn existsb occurs] in *.
+    rewrite orb_false_r in *. apply Nat.eqb_eq in Hv. subst v. vm_compute. reflexivity.
+Qed.
+
+Lemma ex_reach :
+  hist_ok 1 0 50 xprep init_engine [] /\ fst (fst (erun 1 0 50 xprep init_engine [])) = xe
+  /\ snd (fst (erun 1 0 50 xprep init_engine [])) = [] /\ Forall qop xops
+  /\ pick 0 xops (snd (erun 1 0 50 xops xe [])) = [xans "a"; xans "b"; otag "done" []]
+  /\ pick 1 xops (snd (erun 1 0 50 xops xe [])) = [xans "a"; xans "b"; otag "closed" []; otag "done" []].
+Proof.
+  split; [exact ex_hist_ok|]. split; [reflexivity|]. split; [vm_compute; reflexivity|].
+  destruct ex_slots as [A [_ [B [C _]]]]. auto.
+Qed.
